@@ -65,6 +65,32 @@ impl Model {
     }
 }
 
+/// decision steps before the originator / router-id comparison, from the path's own data:
+/// (LLGR-stale, LOCAL_PREF (default 100, higher first), AS_PATH length (a set counts 1, confederation
+/// segments 0), ORIGIN, learned from an external peer, GR-stale, CLUSTER_LIST length)
+fn tie_key(p: &rustybgp_table::Path) -> (bool, std::cmp::Reverse<u32>, usize, u32, bool, bool, usize) {
+    let find = |code: u8| p.attr.iter().find(|a| a.code() == code);
+    let llgr = p.source.is_llgr_stale() || find(8).and_then(|a| a.binary()).is_some_and(|b| b.chunks(4).any(|c| c == [0xff, 0xff, 0x00, 0x06]));
+    let local_pref = find(5).and_then(|a| a.value()).unwrap_or(100);
+    let mut hops = 0usize;
+    if let Some(b) = find(2).and_then(|a| a.binary()) {
+        let mut i = 0;
+        while i + 2 <= b.len() {
+            let (t, n) = (b[i], b[i + 1] as usize);
+            hops += match t {
+                2 => n,
+                1 => 1,
+                _ => 0,
+            };
+            i += 2 + 4 * n;
+        }
+    }
+    let origin = find(1).and_then(|a| a.value()).unwrap_or(2);
+    let external = matches!(p.source.role, rustybgp_table::PeerRole::Ebgp | rustybgp_table::PeerRole::RsClient);
+    let cluster = find(10).and_then(|a| a.binary()).map(|b| b.len() / 4).unwrap_or(0);
+    (llgr, std::cmp::Reverse(local_pref), hops, origin, !external, p.source.is_stale(), cluster)
+}
+
 fn op_kind(op: &TmOp) -> &'static str {
     match op {
         TmOp::Insert { .. } => "insert",
@@ -80,7 +106,18 @@ fn op_kind(op: &TmOp) -> &'static str {
 }
 
 pub fn check(c: &Case) -> CheckResult {
-    let rig = Rig::new(true);
+    check_with(c, false)
+}
+
+pub fn check_vrf(c: &Case) -> CheckResult {
+    check_with(c, true)
+}
+
+/// (kernel table, import route targets) of the VRFs of Rig::with_vrfs that have a kernel table
+const VRF_TABLES: [(u32, &[u8]); 2] = [(10, &[1]), (20, &[1, 2])];
+
+fn check_with(c: &Case, vrfs: bool) -> CheckResult {
+    let rig = if vrfs { Rig::with_vrfs() } else { Rig::new(true) };
     let mut m = Model::default();
     let mut info = CaseInfo::trivial();
     let mut kinds: Vec<&'static str> = Vec::new();
@@ -99,7 +136,10 @@ pub fn check(c: &Case) -> CheckResult {
         // ---- expected FIB from the RIB's current ranking ------------------------
         let invalid = tmv::nexthop_invalid(&rig.tm);
         let mut want: BTreeMap<String, Vec<String>> = BTreeMap::new();
-        for family in [Family::IPV4, Family::IPV6] {
+        for family in [Family::IPV4, Family::IPV6, Family::IPV4_VPN] {
+            if family == Family::IPV4_VPN && !vrfs {
+                continue;
+            }
             for ch in rig.tm.collect_loc_rib_paths(family) {
                 let Some(best) = ch.new_best() else { continue };
                 if let Some(nh) = best.nexthop
@@ -107,18 +147,34 @@ pub fn check(c: &Case) -> CheckResult {
                 {
                     return Err(wit(Failure::new("unreachable-selected", format!("step #{i}: the best path of {:?} has next hop {:?}, which is currently reported unreachable ({invalid:?})", ch.net, nh.addr()))));
                 }
-                let mut v: Vec<String> = ch.ecmp_paths().into_iter().filter_map(|p| p.nexthop).map(|n| format!("{:?}", n.addr())).collect();
+                // the best path and the paths that tie with it on every step before the final
+                // identifier comparison (reference: tie_key below, written from the decision order)
+                let bk = tie_key(best);
+                let mut v: Vec<String> = ch.current_paths.iter().take_while(|p| tie_key(p) == bk).filter_map(|p| p.nexthop).map(|n| format!("{:?}", n.addr())).collect();
                 v.sort();
                 v.dedup();
                 if !v.is_empty() {
-                    want.insert(format!("None|{:?}", ch.net), v);
+                    want.insert(format!("None|{:?}", ch.net), v.clone());
+                }
+                // a VPN prefix is also installed, without its route distinguisher, in every VRF
+                // one of whose import route targets the best path carries - and in no other
+                if let rustybgp_packet::Nlri::VpnV4(n) = &ch.net
+                    && !v.is_empty()
+                {
+                    let rts: Vec<[u8; 8]> = best.attr.iter().filter(|a| a.code() == 16).filter_map(|a| a.binary()).flat_map(|b| b.chunks_exact(8).map(|c| <[u8; 8]>::try_from(c).unwrap()).collect::<Vec<_>>()).collect();
+                    for (table_id, import) in VRF_TABLES {
+                        if import.iter().any(|n| rts.contains(&crate::props::tmrig::route_target(*n))) {
+                            want.insert(format!("Some({table_id})|{:?}", rustybgp_packet::Nlri::V4(n.prefix)), v.clone());
+                            info.classes.push("vrf-route-expected");
+                        }
+                    }
                 }
             }
         }
         if want != m.fib {
             let k = want.keys().chain(m.fib.keys()).find(|k| want.get(*k) != m.fib.get(*k)).cloned().unwrap_or_default();
             let only_set = want.get(&k).is_some() && m.fib.get(&k).is_some();
-            return Err(wit(Failure::new("fib-differs", format!("step #{i} ({:?}): replaying the FIB requests gives {k} -> {:?}, the RIB's best path and its ties give {:?}", st.op, m.fib.get(&k), want.get(&k))).with("what", if only_set { "next-hop-set" } else if want.get(&k).is_some() { "missing-in-fib" } else { "left-in-fib" })));
+            return Err(wit(Failure::new("fib-differs", format!("step #{i} ({:?}): replaying the FIB requests gives {k} -> {:?}, the RIB's best path and its ties give {:?}", st.op, m.fib.get(&k), want.get(&k))).with("vrf_table", k.starts_with("Some")).with("what", if only_set { "next-hop-set" } else if want.get(&k).is_some() { "missing-in-fib" } else { "left-in-fib" })));
         }
         // ---- registrations --------------------------------------------------------
         let (pre, _) = tmv::rib_views(&rig.tm);
@@ -175,13 +231,40 @@ pub fn arb_case(max: usize) -> impl Strategy<Value = Case> {
     })
 }
 
+/// histories over two VPNv4 prefixes with route-target variants, three VRFs configured
+pub fn arb_vrf_case(max: usize) -> impl Strategy<Value = Case> {
+    use crate::props::tmrig::VPN_PREFIX_BASE;
+    let op = prop_oneof![
+        10 => (0u8..N_PEERS, 0u8..2, 0u8..2, 0u8..12, 0u8..N_NH).prop_map(|(peer, prefix, path_id, attrs, nh)| TmOp::Insert { peer, prefix: VPN_PREFIX_BASE + prefix, path_id, attrs: 100 + attrs, nh }),
+        4 => (0u8..N_PEERS, 0u8..2, 0u8..2).prop_map(|(peer, prefix, path_id)| TmOp::Remove { peer, prefix: VPN_PREFIX_BASE + prefix, path_id }),
+        1 => (0u8..N_PEERS).prop_map(|peer| TmOp::DropPeer { peer }),
+        1 => (0u8..N_PEERS).prop_map(|peer| TmOp::MarkStale { peer }),
+        1 => (0u8..N_PEERS).prop_map(|peer| TmOp::DropStale { peer }),
+        1 => (0u8..N_PEERS, 0u8..3).prop_map(|(peer, policy)| TmOp::SoftResetIn { peer, policy }),
+        3 => (0u8..N_NH, any::<bool>()).prop_map(|(nh, reachable)| TmOp::NhReach { nh, reachable }),
+        2 => (0u8..N_PEERS, 0u8..3, 0u8..2, 0u8..6, 0u8..N_NH).prop_map(|(peer, prefix, path_id, attrs, nh)| TmOp::Insert { peer, prefix, path_id, attrs, nh }),
+    ];
+    proptest::collection::vec(op.prop_map(|op| Step { op, nested: None }), 1..max).prop_map(|steps| Case { steps })
+}
+
+pub const VRF_RULE: &str = "fib-vrf-histories: the same over VPNv4 prefixes (one route distinguisher per prefix) whose paths carry the route targets {1}, {2}, {1,2} or none, with three VRFs configured: a (kernel table 10, imports RT 1), b (table 20, imports RT 1 and 2), c (no kernel table, imports RT 2). Expected after every step: the VPN prefix itself in the main table as before, and the prefix without its route distinguisher in the table of exactly those VRFs one of whose import route targets the current best path carries, with the same next-hop set. non-trivial := as above";
+
 pub fn run(r: &Run) {
     r.set_rule(RULE);
     r.assume("the rig's import policies do not rewrite next hops, so the next hop shown by iter_reach is the registered one; VRF (VPN) FIB distribution is not generated");
-    r.assume("the expected FIB uses the repository's own ranking of the final state (collect_loc_rib_paths / ecmp_paths, judged by C02); what is decided here is that the request stream keeps up with it");
+    r.assume("the expected FIB uses the repository's ranking of the final state (collect_loc_rib_paths, judged by C02) and an own computation of which ranked paths tie with the best before the identifier comparison (tie_key); what is decided here is that the request stream keeps up with it");
     r.prop("fib-histories", r.tier.pick(150_000, 3_000_000), || arb_case(r.tier.pick(20, 40)), check);
+    r.assume(VRF_RULE);
+    r.prop("fib-vrf-histories", r.tier.pick(60_000, 1_500_000), || arb_vrf_case(r.tier.pick(16, 32)), check_vrf);
 }
 
-pub fn replay(_sub: &str, case: &Value) -> Result<CheckResult, String> {
+pub fn replay(sub: &str, case: &Value) -> Result<CheckResult, String> {
+    if sub == "fib-vrf-histories" {
+        return Ok(check_vrf(&decode_case(case)?));
+    }
+    replay_plain(sub, case)
+}
+
+fn replay_plain(_sub: &str, case: &Value) -> Result<CheckResult, String> {
     Ok(check(&decode_case(case)?))
 }
